@@ -294,8 +294,13 @@ func c17Gen(r *vfRand, size int) c17Case {
 	c.OfflineDelayS = []int64{0, 600, 7200, 2 * c.IntervalS}[r.Intn(4)]
 	c.CheckIntervalS = []int64{1, 30, 60}[r.Intn(3)]
 	c.MaxWorkers = 1 + r.Intn(6)
-	c.Periodic = r.Intn(c.MaxWorkers + 1)
+	// every job type must be able to get a worker ("as long as workers keep up"): a
+	// pool whose workers are all dedicated to the other type never runs it
+	c.Periodic = r.Intn(c.MaxWorkers)
 	c.Burst = r.Intn(c.MaxWorkers - c.Periodic + 1)
+	if c.Burst == c.MaxWorkers {
+		c.Burst--
+	}
 	c.Conns = []int{1, 2, 5, 20}[r.Intn(4)]
 	c.GraceS = 7 * 60
 	c.WindowMs = 0
